@@ -124,6 +124,7 @@ def op_strategies(name_pool=None):
     S["set_pos"] = fixed(op="set_pos", t=IDX, da=IDX, role=st.sampled_from(["positions", "extents"]), how=HOW)
     S["clear_ext"] = fixed(op="clear_ext", t=IDX, how=HOW)
     S["set_featdata"] = fixed(op="set_featdata", t=IDX, da=IDX)
+    S["sec_link"] = fixed(op="sec_link", t=IDX, target=IDX, how=HOW)
 
     S["write"] = fixed(op="write", da=IDX, fill=st.sampled_from(["neg", "ext", "ramp"]), seed=st.integers(0, 9),
                        direct=st.booleans(), how=HOW)
@@ -154,7 +155,7 @@ CREATE = ["mk_block", "mk_section", "mk_prop", "mk_prop_dtype", "mk_group", "mk_
           "mk_tag", "mk_mtag", "mk_mtag_list", "mk_source", "mk_feature", "mk_dim_sampled", "mk_dim_range",
           "mk_dim_set", "mk_dim_self"]
 SETTERS = ["set_type", "set_definition", "set_array", "set_tag", "set_section", "set_prop", "set_feature", "set_dim"]
-LINKS = ["link", "link", "unlink", "set_meta", "del_meta", "set_pos", "clear_ext", "set_featdata", "dim_link"]
+LINKS = ["link", "link", "unlink", "set_meta", "del_meta", "set_pos", "clear_ext", "set_featdata", "dim_link", "sec_link"]
 DATA = ["write", "append", "resize", "prop_set", "prop_ext", "prop_clear"]
 DELETE = ["del", "del_dims"]
 
@@ -205,7 +206,7 @@ def program(enabled, min_size=0, max_size=30, name_pool=None, weights=None):
     for mname, mk in MACROS.items():
         if mname in enabled:
             alts += [mk(S)] * enabled.count(mname)
-    return st.lists(st.one_of(alts), min_size=min_size, max_size=max_size).map(
+    return st.lists(gen.weighted(alts), min_size=min_size, max_size=max_size).map(
         lambda chunks: [o for ch in chunks for o in ch][:max_size * 2])
 
 
@@ -225,6 +226,7 @@ def rich_prefix(nblocks=2, same_names=True):
     P.append({"op": "mk_prop", "sec": 0, "name": "p1", "vals": [1, 2, 3]})
     P.append({"op": "mk_prop", "sec": 1, "name": "p1", "vals": ["a", "ü"]})
     P.append({"op": "mk_prop", "sec": 4, "name": "p2", "vals": [0.5]})
+    P.append({"op": "sec_link", "t": 2, "target": 3})          # meta/sub/subsub --link--> other
     for b in range(nblocks):
         bn = "blk%d" % b
         P.append({"op": "mk_block", "name": bn, "type": "t"})
@@ -247,7 +249,8 @@ def rich_prefix(nblocks=2, same_names=True):
         P.append({"op": "mk_group", "blk": b, "name": pre + "g2", "type": "t"})
         P.append({"op": "mk_tag", "blk": b, "name": pre + "tag", "type": "t", "pos": [1.0, 0.0]})
         P.append({"op": "mk_mtag", "blk": b, "name": pre + "mtag", "type": "t", "pos": a0 + 2})
-        P.append({"op": "set_pos", "t": b, "da": a0 + 3, "role": "extents"})
+        # block 0: separate extents array; block 1: positions and extents are the SAME array
+        P.append({"op": "set_pos", "t": b, "da": a0 + (3 if b == 0 else 2), "role": "extents"})
         g0 = b * 2
         for g in (g0, g0 + 1):
             P.append({"op": "link", "k": "group", "t": g, "role": "data_arrays", "target": a0})
